@@ -177,7 +177,7 @@ func TestReclaim(t *testing.T) {
 		h.Closer = []string{"app", "target", "both"}[rapid.IntRange(0, 2).Draw(rt, "closer")]
 		h.Overlap = []int{1, 1, 2, 5}[rapid.IntRange(0, 3).Draw(rt, "overlap")]
 		h.Payload = []int{1, 100, 5000, 40000}[rapid.IntRange(0, 3).Draw(rt, "payload")]
-		endings := []string{"none", "client-shutdown", "server-shutdown", "cut-rst", "cut-fin", "garbage"}
+		endings := []string{"none", "client-shutdown", "server-shutdown", "cut-rst", "cut-fin", "garbage", "outage-and-recovery"}
 		if vlib.Thorough() {
 			endings = append(endings, "silent")
 		}
@@ -185,7 +185,7 @@ func TestReclaim(t *testing.T) {
 		h.OpenAtEnd = []int{0, 0, 1, 3, 6}[rapid.IntRange(0, 4).Draw(rt, "openAtEnd")]
 		h.Refused = []string{"", "", "unknown-channel", "dead-target"}[rapid.IntRange(0, 3).Draw(rt, "refused")]
 		viaRelay := h.Carrier != vlib.CarStdio
-		if !viaRelay && (h.Ending == "cut-rst" || h.Ending == "cut-fin" || h.Ending == "garbage" || h.Ending == "silent") {
+		if !viaRelay && (h.Ending == "cut-rst" || h.Ending == "cut-fin" || h.Ending == "garbage" || h.Ending == "silent" || h.Ending == "outage-and-recovery") {
 			h.Ending = "server-shutdown"
 		}
 		if h.Carrier == vlib.CarStdio && h.Ending == "server-shutdown" {
@@ -317,6 +317,24 @@ func TestReclaim(t *testing.T) {
 			junk := vlib.PRF(99, 0, 3000)
 			p.Relay.InjectUp(junk)
 			p.Relay.InjectDown(junk)
+		case "outage-and-recovery":
+			// the session is lost while the server cannot be reached; connections attempted meanwhile fail; when the
+			// server is reachable again the client must work as before and keep nothing of the failed attempts
+			p.Relay.SetDown(true)
+			p.Relay.Cut(true)
+			for i := 0; i < 2; i++ {
+				if c, err := p.Dial("data"); err == nil {
+					c.SetDeadline(time.Now().Add(10 * time.Second))
+					c.Write([]byte("anybody?"))
+					buf := make([]byte, 8)
+					c.Read(buf)
+					c.Close()
+				}
+			}
+			p.Relay.SetDown(false)
+			if msg := runConns(p, tgt, history{Carrier: h.Carrier, Closer: "app", Overlap: 1, Payload: 100}, 20); msg != "" {
+				fail("after an outage during which connection attempts failed, with the server reachable again: "+msg, meas)
+			}
 		case "silent":
 			// the carrier stays open but nothing passes any more: multiplexer keep-alive must end the session
 			p.Relay.DelayUp, p.Relay.DelayDown = time.Hour, time.Hour
